@@ -477,7 +477,7 @@ def _native_traj(target, seed, steps=4):
     return cfgd, None
 
 
-def _native_norm(seed):
+def _native_norm(seed, force=None):
     import torch
     from distributed_shampoo.distributed_shampoo import DistributedShampoo
     from distributed_shampoo import shampoo_types as st
@@ -492,11 +492,19 @@ def _native_norm(seed):
     # Shampoo or eigenvalue-corrected Shampoo, optionally with an ignored dimension (1-D blocks then have no preconditioned dimension at all)
     soap = rng.random() < 0.4
     ignored = rng.choice([[], [0]])
+    merge = True
+    if force is not None:
+        # blocks WITHOUT any preconditioned dimension (precondition() hands the gradient itself back): every dimension ignored, or an order-0 block
+        gname, shape, ignored, merge, soap = force
+        gc = dict(sgd=st.SGDGraftingConfig(), adagrad=st.AdaGradGraftingConfig(epsilon=1e-8), rmsprop=st.RMSpropGraftingConfig(beta2=0.9, epsilon=1e-8),
+                  adam=st.AdamGraftingConfig(beta2=0.9, epsilon=1e-8))[gname]
+        maxdim = 1024
     pcfg = (st.EigenvalueCorrectedShampooPreconditionerConfig if soap else st.ShampooPreconditionerConfig)(ignored_dims=ignored)
     lr = 0.1
     p = torch.nn.Parameter(torch.randn(shape, dtype=torch.float64))
     q = torch.nn.Parameter(p.detach().clone())
-    kw = dict(lr=lr, betas=(0.0, 1.0), epsilon=1e-6, max_preconditioner_dim=maxdim, precondition_frequency=1, preconditioner_dtype=torch.float64, preconditioner_config=pcfg)
+    kw = dict(lr=lr, betas=(0.0, 1.0), epsilon=1e-6, max_preconditioner_dim=maxdim, precondition_frequency=1, preconditioner_dtype=torch.float64, preconditioner_config=pcfg,
+              use_merge_dims=merge)
     opt = DistributedShampoo([p], grafting_config=gc, start_preconditioning_step=1, **kw)
     gra = DistributedShampoo([q], grafting_config=gc, start_preconditioning_step=50, precondition_frequency=50,
                              **{k: v for k, v in kw.items() if k != "precondition_frequency"})
@@ -564,6 +572,19 @@ def bounded(tier, seed):
         if bad:
             viol.append(dict(ob=f"bounded/norm-transfer[seed={seed * 1000 + k}]", func="DistributedShampoo._precondition_and_grafting", input=cfgd,
                              text="per-block step norm differs from the grafted method's", detail=bad, replay=dict(kind="norm_native", seed=seed * 1000 + k)))
+    for gname in ("sgd", "adagrad", "rmsprop", "adam"):
+        for shape, ign, merge, soap in (((5,), [0], True, False), ((), [], False, False), ((2, 3), [0, 1], False, False), ((4,), [0], True, True)):
+            force = (gname, shape, ign, merge, soap)
+            try:
+                cfgd, bad = _native_norm(seed, force=force)
+            except BaseException as e:  # noqa
+                cfgd, bad = dict(force=repr(force)), f"raised {type(e).__name__}: {str(e)[:200]}"
+            evals += 1
+            distinct.add(repr(force))
+            if bad:
+                viol.append(dict(ob=f"bounded/norm-transfer-no-preconditioned-dim[{gname},{shape},{ign}]", func="DistributedShampoo._precondition_and_grafting", input=dict(force=repr(force)),
+                                 text="per-block step norm differs from the grafted method's for a block without any preconditioned dimension", detail=bad,
+                                 replay=dict(kind="norm_forced", force=[gname, list(shape), ign, merge, soap], seed=seed)))
     return dict(evaluations=evals, distinct_nontrivial=len(distinct),
                 rule="seeded random configurations (shapes of order 0..3, blocked/merged, lr, wd, momentum/Nesterov, betas, eps) x 4 steps of the real optimizer vs the real torch.optim class; per-block step norms vs a warm-up-only twin for norm transfer; distinct = distinct configurations",
                 samples=samples, bound=f"{n} seeds per target, 4 steps, float64", violations=viol[:5])
@@ -575,6 +596,10 @@ def replay(r):
 
 def replay_file(doc):
     rp = doc.get("replay_input") or {}
+    if rp.get("kind") == "norm_forced":
+        f = rp["force"]
+        cfgd, bad = _native_norm(rp.get("seed", 0), force=(f[0], tuple(f[1]), f[2], f[3], f[4]))
+        return bool(bad), f"{cfgd}: {bad}"
     if rp.get("kind") == "traj":
         cfgd, bad = _native_traj(rp["target"], rp["seed"])
         return bool(bad), f"{cfgd}: {bad}"
